@@ -180,7 +180,8 @@ def _is_new_function(project, g) -> bool:
         r = reference_table().get(g.module.relpath)
     except Exception:
         return False
-    return r is not None and g.qualname not in r and g.parent is None
+    from .inline import transparent
+    return r is not None and g.qualname not in r and g.parent is None and transparent(g)
 
 
 def path_summaries(f: FuncInfo, limit: int = 512, body: Optional[List[ast.stmt]] = None, env0: Optional[Dict[str, ast.expr]] = None, project=None, depth: int = 0) -> Optional[List[Path]]:
